@@ -15,10 +15,40 @@ package boson
 //@   ensures cap: int(ret) <= 31
 //@   ensures prefix-equal: forall p :: 0 <= p && p < int(ret) ==> !xbit(one, other, p)
 //@   ensures first-diff: int(ret) < 31 ==> xbit(one, other, int(ret))
+//@   assigns nothing
 //@   loop 1 invariant 0 <= int(i) && int(i) <= int(b) && int(b) == 4 && int(m) == 8
 //@   loop 1 invariant forall p :: 0 <= p && p < 8*int(i) ==> !xbit(one, other, p)
 //@   loop 1 decreases int(b) - int(i)
 //@   loop 2 unroll 8
+
+//@ # dist(a, x, i): byte i of the XOR distance between x and target a
+//@ spec func dist(a []byte, x []byte, i int) byte = x[i] ^ a[i]
+
+//@ func DistanceCmp
+//@   property C20
+//@   ensures err-iff-length: (result1 != nil) <==> (len(a) != len(x) || len(a) != len(y))
+//@   ensures err-zero: result1 != nil ==> result0 == 0
+//@   ensures range: result0 == 0 || result0 == 1 || result0 == 0 - 1
+//@   ensures equal: result1 == nil && result0 == 0 ==> forall k :: 0 <= k && k < len(a) ==> dist(a, x, k) == dist(a, y, k)
+//@   ensures closer: result1 == nil && result0 == 1 ==> exists k :: 0 <= k && k < len(a) && dist(a, x, k) < dist(a, y, k) && forall j :: 0 <= j && j < k ==> dist(a, x, j) == dist(a, y, j)
+//@   ensures farther: result1 == nil && result0 == 0 - 1 ==> exists k :: 0 <= k && k < len(a) && dist(a, x, k) > dist(a, y, k) && forall j :: 0 <= j && j < k ==> dist(a, x, j) == dist(a, y, j)
+//@   assigns nothing
+//@   loop 1 invariant 0 - 1 <= rangeindex && rangeindex < len(a) || len(a) == 0 && rangeindex == 0 - 1
+//@   loop 1 invariant len(a) == len(x) && len(a) == len(y)
+//@   loop 1 invariant forall k :: 0 <= k && k <= rangeindex ==> dist(a, x, k) == dist(a, y, k)
+//@   loop 1 decreases len(a) - rangeindex
+
+//@ func DistanceRaw
+//@   property C20
+//@   ensures err-iff-length: (result1 != nil) <==> (len(x) != len(y))
+//@   ensures length: result1 == nil ==> len(result0) == len(x)
+//@   ensures xor: result1 == nil ==> forall k :: 0 <= k && k < len(x) ==> result0[k] == x[k] ^ y[k]
+//@   assigns nothing
+//@   loop 1 assigns elems(c)
+//@   loop 1 invariant 0 - 1 <= rangeindex && rangeindex < len(x) || len(x) == 0 && rangeindex == 0 - 1
+//@   loop 1 invariant len(c) == len(x) && len(x) == len(y) && fresh(c)
+//@   loop 1 invariant forall k :: 0 <= k && k <= rangeindex ==> c[k] == x[k] ^ y[k]
+//@   loop 1 decreases len(x) - rangeindex
 
 //@ func ExtendedProximity
 //@   property C20
@@ -26,6 +56,7 @@ package boson
 //@   ensures cap: int(ret) <= 36
 //@   ensures prefix-equal: forall p :: 0 <= p && p < int(ret) ==> !xbit(one, other, p)
 //@   ensures first-diff: int(ret) < 36 ==> xbit(one, other, int(ret))
+//@   assigns nothing
 //@   loop 1 invariant 0 <= int(i) && int(i) <= int(b) && int(b) == 5 && int(m) == 8
 //@   loop 1 invariant forall p :: 0 <= p && p < 8*int(i) ==> !xbit(one, other, p)
 //@   loop 1 decreases int(b) - int(i)
